@@ -4,7 +4,7 @@ use std::net::IpAddr;
 use crate::NetflowPacket;
 use crate::protocol::ProtocolTypes;
 use crate::static_versions::{v5::V5, v7::V7};
-use crate::variable_versions::data_number::FieldValue;
+use crate::variable_versions::data_number::{DataNumber, FieldValue};
 use crate::variable_versions::ipfix_lookup::IPFixField;
 use crate::variable_versions::v9_lookup::V9Field;
 use crate::variable_versions::{
@@ -116,13 +116,28 @@ impl From<&V7> for NetflowCommon {
     }
 }
 
+/// An unsigned number decoded with any width, if it fits the common field: an exporter may send
+/// a field with another width than the usual one (e.g. a 4-byte port, a 2-byte sysUpTime).
+fn unsigned<T: TryFrom<u128>>(value: &FieldValue) -> Option<T> {
+    let number = match value {
+        FieldValue::DataNumber(DataNumber::U8(n)) => u128::from(*n),
+        FieldValue::DataNumber(DataNumber::U16(n)) => u128::from(*n),
+        FieldValue::DataNumber(DataNumber::U24(n)) => u128::from(*n),
+        FieldValue::DataNumber(DataNumber::U32(n)) => u128::from(*n),
+        FieldValue::DataNumber(DataNumber::U64(n)) => u128::from(*n),
+        FieldValue::DataNumber(DataNumber::U128(n)) => *n,
+        _ => return None,
+    };
+    T::try_from(number).ok()
+}
+
 /// The V9 PROTOCOL field is decoded as `FieldValue::ProtocolType`: recover its number.
 /// `ProtocolTypes::Unknown` does not remember the number it was decoded from.
 fn v9_protocol_number(value: &FieldValue) -> Option<u8> {
     match value {
         FieldValue::ProtocolType(ProtocolTypes::Unknown) => None,
         FieldValue::ProtocolType(protocol) => Some(u8::from(*protocol)),
-        other => other.try_into().ok(),
+        other => unsigned(other),
     }
 }
 
@@ -131,7 +146,7 @@ fn v9_protocol_number(value: &FieldValue) -> Option<u8> {
 fn v9_uptime_millis(value: &FieldValue) -> Option<u32> {
     match value {
         FieldValue::Duration(duration) => u32::try_from(duration.as_millis()).ok(),
-        other => other.try_into().ok(),
+        other => unsigned(other),
     }
 }
 
@@ -154,12 +169,8 @@ impl From<&V9> for NetflowCommon {
                             .get(&V9Field::Ipv4DstAddr)
                             .or_else(|| value_map.get(&V9Field::Ipv6DstAddr))
                             .and_then(|v| v.try_into().ok()),
-                        src_port: value_map
-                            .get(&V9Field::L4SrcPort)
-                            .and_then(|v| v.try_into().ok()),
-                        dst_port: value_map
-                            .get(&V9Field::L4DstPort)
-                            .and_then(|v| v.try_into().ok()),
+                        src_port: value_map.get(&V9Field::L4SrcPort).and_then(unsigned),
+                        dst_port: value_map.get(&V9Field::L4DstPort).and_then(unsigned),
                         protocol_number: value_map
                             .get(&V9Field::Protocol)
                             .and_then(v9_protocol_number),
@@ -214,26 +225,23 @@ impl From<&IPFix> for NetflowCommon {
                             .and_then(|v| v.try_into().ok()),
                         src_port: value_map
                             .get(&IPFixField::SourceTransportPort)
-                            .and_then(|v| v.try_into().ok()),
+                            .and_then(unsigned),
                         dst_port: value_map
                             .get(&IPFixField::DestinationTransportPort)
-                            .and_then(|v| v.try_into().ok()),
+                            .and_then(unsigned),
                         protocol_number: value_map
                             .get(&IPFixField::ProtocolIdentifier)
-                            .and_then(|v| v.try_into().ok()),
-                        protocol_type: value_map.get(&IPFixField::ProtocolIdentifier).and_then(
-                            |v| {
-                                v.try_into()
-                                    .ok()
-                                    .map(|proto: u8| ProtocolTypes::from(proto))
-                            },
-                        ),
+                            .and_then(unsigned),
+                        protocol_type: value_map
+                            .get(&IPFixField::ProtocolIdentifier)
+                            .and_then(unsigned::<u8>)
+                            .map(ProtocolTypes::from),
                         first_seen: value_map
                             .get(&IPFixField::FlowStartSysUpTime)
-                            .and_then(|v| v.try_into().ok()),
+                            .and_then(unsigned),
                         last_seen: value_map
                             .get(&IPFixField::FlowEndSysUpTime)
-                            .and_then(|v| v.try_into().ok()),
+                            .and_then(unsigned),
                         src_mac: value_map
                             .get(&IPFixField::SourceMacaddress)
                             .and_then(|v| v.try_into().ok()),
